@@ -9,6 +9,7 @@ From RV Require Import Base.Prelude Base.Cursor Name.NameModel Name.NameSpec Nam
      Zone.ZoneModel Resolver.LocalModel Resolver.LocalSpec Resolver.LocalProofs
      Resolver.ValidateModel Resolver.ValidateSpec Resolver.ValidateProofs
      Resolver.TransportModel Resolver.RecursiveModel Resolver.ResolverFacts.
+From RV Require Export Resolver.CutFacts.
 Set Default Timeout 120.
 
 (* ====================================================================== *)
@@ -615,7 +616,8 @@ Section RP.
   Notation rbody := (recursive_body cache cache_get sort_names zs).
   Notation cstep := (candidate_step cache cache_get cache_insert_all sort_names zs o pmode port).
   Notation rcr := (resolve_combined_recursive cache).
-  Notation rwnr := (resolve_with_nameserver_response cache cache_insert_all).
+  Notation rwnr := (resolve_with_nameserver_response cache cache_insert_all zs).
+  Notation rwm := (resolve_with_response_match cache cache_insert_all).
   Notation htry := (hostname_try cache cache_get zs).
   Notation hloop := (hostname_loop cache cache_get zs).
   Notation rhi := (resolve_hostname_to_ip cache cache_get zs pmode).
@@ -631,6 +633,16 @@ Section RP.
     cloop (S f) stack q combined mc cands next locally
     = cstep (rrn f) (cloop f stack q combined) stack q combined mc cands next locally.
   Proof. reflexivity. Qed.
+
+  (* resolve_with_nameserver_response is the `match` on the response that
+     cut_at_local_authority leaves (cut_ok: it never panics) *)
+  Lemma rwnr_cut rec stack combined nr q :
+    exists nr', cut_shape zs q nr nr' /\ cut_at_local_authority zs q nr = Ok nr'
+                /\ rwnr rec stack combined nr q = rwm rec stack combined nr' q.
+  Proof.
+    destruct (cut_ok zs q nr) as (nr' & E & Hs). exists nr'. split; [exact Hs|]. split; [exact E|].
+    unfold resolve_with_nameserver_response. rewrite E. reflexivity.
+  Qed.
 
   (* ---------- the primitives ---------- *)
 
@@ -739,7 +751,11 @@ Section RP.
 
     Lemma rwnr_stab combined nr q st : stab (fun f => rwnr (rrn f) stack combined nr q) st.
     Proof.
-      unfold resolve_with_nameserver_response. destruct nr as [rrs soa|rrs cname|rrs d].
+      destruct (rwnr_cut (rrn O) stack combined nr q) as (nr' & _ & Ecut & _).
+      apply (stab_ext (fun f => rwm (rrn f) stack combined nr' q)).
+      { intro f. unfold resolve_with_nameserver_response. rewrite Ecut. reflexivity. }
+      clear Ecut nr. rename nr' into nr.
+      unfold resolve_with_response_match. destruct nr as [rrs soa|rrs cname|rrs d].
       - stab_ret.
       - apply stab_bind; [stab_ret|]. intros _ st1 _.
         apply stab_bind; [apply rcr_stab|]. intros r st2 _. stab_ret.
@@ -772,7 +788,12 @@ Section RP.
     Lemma rwnr_inr rec combined nr q st d st' :
       rwnr rec stack combined nr q st = (Val (inr d), st') -> exists rrs, nr = NRDelegation rrs d.
     Proof.
-      unfold resolve_with_nameserver_response, RecursiveModel.rbind, insert_all, ret.
+      destruct (rwnr_cut rec stack combined nr q) as (nr' & Hs & _ & ->).
+      assert (Hd : forall rrs, nr' = NRDelegation rrs d -> nr = NRDelegation rrs d).
+      { intros rrs E. destruct Hs; [exact E|discriminate]. }
+      intro H. cut (exists rrs, nr' = NRDelegation rrs d). { intros [rrs E]. exists rrs. apply Hd, E. }
+      revert H. clear Hd Hs nr. rename nr' into nr.
+      unfold resolve_with_response_match, RecursiveModel.rbind, insert_all, ret.
       destruct nr as [rrs soa|rrs cname|rrs d0].
       - discriminate.
       - destruct (resolve_combined_recursive _ _ _ _ _ _) as [[r|w] st2]; discriminate.
@@ -882,11 +903,8 @@ Section RP.
   (* 2. a generic invariant theorem: one induction over the execution        *)
   (* ====================================================================== *)
 
-  (* the records of a validated reply that are cached and used *)
-  Definition nr_rrs (nr : nsresponse) : list rr :=
-    match nr with NRAnswer rrs _ => rrs | NRCname rrs _ => rrs | NRDelegation rrs _ => rrs end.
-  Definition nr_soa (nr : nsresponse) : option rr :=
-    match nr with NRAnswer _ s => s | _ => None end.
+  (* the records of a validated reply that are cached and used: nr_rrs, nr_soa (CutFacts.v);
+     what is cached is a prefix of them (all of them unless cut_at_local_authority cuts) *)
 
   Lemma result_rrs_split nr : result_rrs nr = nr_rrs nr ++ opt_list (nr_soa nr).
   Proof. destruct nr as [rrs [s|]|rrs c|rrs d]; cbn [result_rrs nr_rrs nr_soa opt_list]; rewrite ?app_nil_r; reflexivity. Qed.
@@ -914,9 +932,11 @@ Section RP.
       ((exists rrs, rlocal_res stack q st = Ok (LPartial rrs))
        \/ (exists rrs s d, rlocal_res stack q st = Ok (LDelegation rrs s d))
        \/ (exists e, rlocal_res stack q st = Err e)) -> QOK q.
-    Hypothesis H_insert : forall st q resp mc nr,
+    Hypothesis H_insert : forall st q resp mc nr i,
       Inv st -> validate_nameserver_response q resp mc = Ok (Some nr) -> Forall (G st) (result_rrs nr) ->
-      Inv (cache_insert_all (fst st) (nr_rrs nr), snd st) /\ R st (cache_insert_all (fst st) (nr_rrs nr), snd st).
+      ((exists x y, nr = NRDelegation x y) \/ forall r, In r (firstn i (nr_rrs nr)) -> owned_elsewhere zs q r = false) ->
+      Inv (cache_insert_all (fst st) (firstn i (nr_rrs nr)), snd st)
+      /\ R st (cache_insert_all (fst st) (firstn i (nr_rrs nr)), snd st).
     Hypothesis H_ip : forall st rrs h t a,
       Inv st -> Forall (G st) rrs -> In t (rtypes_of_mode pmode) -> get_ip rrs h t = Ok (Some a) -> AddrOK st a.
     Hypothesis H_query : forall st a q mc r st',
@@ -983,25 +1003,31 @@ Section RP.
         apply Forall_app. split; [eapply Forall_G_mono; eassumption|exact V1].
       Qed.
 
-      Lemma post_insert st q resp mc nr : Inv st -> validate_nameserver_response q resp mc = Ok (Some nr) ->
-        Forall (G st) (result_rrs nr) -> post (fun _ _ => True) st (insert_all cache cache_insert_all (nr_rrs nr) st).
+      Lemma post_insert st q resp mc nr i : Inv st -> validate_nameserver_response q resp mc = Ok (Some nr) ->
+        Forall (G st) (result_rrs nr) ->
+        ((exists x y, nr = NRDelegation x y) \/ forall r, In r (firstn i (nr_rrs nr)) -> owned_elsewhere zs q r = false) ->
+        post (fun _ _ => True) st (insert_all cache cache_insert_all (firstn i (nr_rrs nr)) st).
       Proof.
-        intros HI Hv Hg. destruct (H_insert st q resp mc nr HI Hv Hg) as [I1 R1].
+        intros HI Hv Hg Hcut. destruct (H_insert st q resp mc nr i HI Hv Hg Hcut) as [I1 R1].
         unfold insert_all, post. cbn [fst snd]. auto.
       Qed.
 
-      Lemma post_rwnr stack combined nr q st q0 resp mc :
-        Inv st -> Forall (G st) combined -> validate_nameserver_response q0 resp mc = Ok (Some nr) ->
+      Lemma post_rwnr stack combined nr q st resp mc :
+        Inv st -> Forall (G st) combined -> validate_nameserver_response q resp mc = Ok (Some nr) ->
         Forall (G st) (result_rrs nr) ->
         post (fun r st' => match r with inl res => good_rres res st' | inr d => True end) st
              (rwnr rec stack combined nr q st).
       Proof.
         intros HI Hc Hv Hg.
-        pose proof (post_insert st q0 resp mc nr HI Hv Hg) as Hins.
-        assert (Hrrs : Forall (G st) (nr_rrs nr) /\ Forall (G st) (opt_list (nr_soa nr))).
-        { rewrite result_rrs_split in Hg. apply Forall_app in Hg. exact Hg. }
-        destruct Hrrs as [Hrrs Hsoa].
-        unfold resolve_with_nameserver_response. destruct nr as [rrs soa|rrs cname|rrs d]; cbn [nr_rrs nr_soa] in *.
+        destruct (rwnr_cut rec stack combined nr q) as (nr' & Hs & _ & ->).
+        assert (Hins : post (fun _ _ => True) st (insert_all cache cache_insert_all (nr_rrs nr') st)).
+        { destruct (cut_shape_insert _ _ _ _ Hs) as (i & -> & Hcut). exact (post_insert st q resp mc nr i HI Hv Hg Hcut). }
+        assert (Hrrs : Forall (G st) (nr_rrs nr') /\ Forall (G st) (opt_list (nr_soa nr'))).
+        { rewrite result_rrs_split in Hg. apply Forall_app in Hg. destruct Hg as [Hg1 Hg2]. split.
+          - apply Forall_forall. intros x Hx. eapply Forall_forall; [exact Hg1|]. eapply cut_shape_incl; eassumption.
+          - destruct (cut_shape_soa _ _ _ _ Hs) as [->| ->]; [exact Hg2|constructor]. }
+        destruct Hrrs as [Hrrs Hsoa]. clear Hs Hg Hv. clear nr. rename nr' into nr.
+        unfold resolve_with_response_match. destruct nr as [rrs soa|rrs cname|rrs d]; cbn [nr_rrs nr_soa] in *.
         - eapply post_bind; [exact Hins|]. intros _ st1 I1 R1 _. apply post_ret; [exact I1|].
           split; cbn [resolved_rrs resolved_soa_rr]; [|eapply Forall_G_mono; eassumption].
           apply Forall_merge; eapply Forall_G_mono; eassumption.
@@ -1203,20 +1229,28 @@ Section RP.
      the cache is changed by nothing but insert_all of the records of a result of
      validate_nameserver_response: every property of caches that such inserts preserve is preserved
      by a whole resolution *)
-  Theorem rrn_only_validated_cached (P : cache -> Prop) :
-    (forall c q resp mc nr, P c -> validate_nameserver_response q resp mc = Ok (Some nr) -> P (cache_insert_all c (nr_rrs nr))) ->
+  Theorem rrn_cached_cut (P : cache -> Prop) :
+    (forall c q resp mc nr i, P c -> validate_nameserver_response q resp mc = Ok (Some nr) ->
+        ((exists x y, nr = NRDelegation x y) \/ forall r, In r (firstn i (nr_rrs nr)) -> owned_elsewhere zs q r = false) ->
+        P (cache_insert_all c (firstn i (nr_rrs nr)))) ->
     forall f stack q st, P (fst st) -> P (fst (snd (rrn f stack q st))).
   Proof.
     intros HP f stack q st H0.
     destruct (generic_invariant (fun st => P (fst st)) (fun _ _ => True) (fun _ _ => True) (fun _ => True)
                 (fun _ _ => True) (fun _ => True)) with (f := f) as [Hr _]; auto.
     - intros. split; apply Forall_forall; auto.
-    - intros st0 q0 resp mc nr H1 H2 _. split; [|exact I]. cbn [fst]. eapply HP; eassumption.
+    - intros st0 q0 resp mc nr i H1 H2 _ H3. split; [|exact I]. cbn [fst]. eapply HP; eassumption.
     - intros st0 a q0 mc r st' H1 _ _ E. repeat split; auto.
       + pose proof (qav_cache (a, port) q0 mc st0) as Hc. rewrite E in Hc. cbn [snd] in Hc. rewrite Hc. exact H1.
       + intros. apply Forall_forall; auto.
     - specialize (Hr stack q st H0). exact (proj1 Hr).
   Qed.
+
+  Theorem rrn_only_validated_cached (P : cache -> Prop) :
+    (forall c q resp mc nr i, P c -> validate_nameserver_response q resp mc = Ok (Some nr) ->
+                              P (cache_insert_all c (firstn i (nr_rrs nr)))) ->
+    forall f stack q st, P (fst st) -> P (fst (snd (rrn f stack q st))).
+  Proof. intros HP. apply rrn_cached_cut. intros c q resp mc nr i H1 H2 _. eapply HP; eassumption. Qed.
 
   (* ---------- the log: destinations and questions (C18, C01) ---------- *)
 
@@ -1278,9 +1312,10 @@ Section RP.
         refine (local_from zs (cache_get (fst st0)) GT GT_zone GT_soa _ _ _ _ _ Hl).
         intros n t r Hr. destruct (CL_get _ _ _ _ Hr) as [r' [H1 H2]]. eapply GT_sim; [exact H2|]. apply Hc, H1.
       - intros stack0 q0 st0 _ Hl Hd Hc. eapply PQ_q; eassumption.
-      - intros st0 q0 resp mc nr [Hl Hc] Hv Hg. split; [|exact I].
+      - intros st0 q0 resp mc nr i [Hl Hc] Hv Hg _. split; [|exact I].
         split; [exact Hl|]. cbn [fst]. intros r Hr. destruct (CL_insert _ _ _ Hr) as [H|[r' [H1 H2]]]; [apply Hc, H|].
-        eapply GT_sim; [exact H2|]. rewrite result_rrs_split in Hg. apply Forall_app in Hg. eapply Forall_forall; [exact (proj1 Hg)|exact H1].
+        eapply GT_sim; [exact H2|]. rewrite result_rrs_split in Hg. apply Forall_app in Hg.
+        eapply Forall_forall; [exact (proj1 Hg)|]. eapply firstn_incl, H1.
       - intros st0 rrs h t a _ Hg Ht Hip. eapply PA_ip; eassumption.
       - intros st0 a q0 mc r st' [[new0 [El0 Fl0]] Hc] Ha Hq E.
         pose proof (qav_cache (a, port) q0 mc st0) as Ecache. pose proof (qav_log (a, port) q0 mc st0) as [new [Elog Fnew]].
@@ -1489,9 +1524,10 @@ Section RP.
         + intros name qt z zr r Hz Hin. exists r. split; [apply rr_sim_refl|]. left. left. exists name, qt, z, zr. auto.
         + intros name qt z zr s Hz Hs. exists s. split; [apply rr_sim_refl|]. left. right. exists name, qt, z, zr. auto.
         + intros n t r Hr. destruct (CL_get _ _ _ _ Hr) as [r' [H1 H2]]. eapply prov_sim; [exact H2|]. apply Hc, H1.
-      - intros st0 q0 resp mc nr Hc Hv Hg. split; [|exists []; reflexivity].
+      - intros st0 q0 resp mc nr i Hc Hv Hg _. split; [|exists []; reflexivity].
         intros r Hr. cbn [fst snd] in *. destruct (CL_insert _ _ _ Hr) as [H|[r' [H1 H2]]]; [apply Hc, H|].
-        eapply prov_sim; [exact H2|]. rewrite result_rrs_split in Hg. apply Forall_app in Hg. eapply Forall_forall; [exact (proj1 Hg)|exact H1].
+        eapply prov_sim; [exact H2|]. rewrite result_rrs_split in Hg. apply Forall_app in Hg.
+        eapply Forall_forall; [exact (proj1 Hg)|]. eapply firstn_incl, H1.
       - intros st0 a q0 mc r st' Hc _ _ E.
         pose proof (qav_cache (a, port) q0 mc st0) as Ecache. pose proof (qav_log (a, port) q0 mc st0) as [new [Elog _]].
         rewrite E in Ecache, Elog. cbn [snd] in Ecache, Elog.
@@ -1550,7 +1586,8 @@ Section RP.
   Lemma rwnr_not_ane rec stack combined nr q st s st' :
     rwnr rec stack combined nr q st <> (Val (inl (ROk (AuthoritativeNameError s))), st').
   Proof.
-    unfold resolve_with_nameserver_response, RecursiveModel.rbind, insert_all, ret.
+    destruct (rwnr_cut rec stack combined nr q) as (nr' & _ & _ & ->). clear nr. rename nr' into nr.
+    unfold resolve_with_response_match, RecursiveModel.rbind, insert_all, ret.
     destruct nr as [rrs soa|rrs cname|rrs d]; [discriminate| |].
     - destruct (resolve_combined_recursive _ _ _ _ _ _) as [[r|w] st1] eqn:E; [|discriminate].
       intro H. inversion H; subst. eapply rcr_not_ane. exact E.
@@ -1625,7 +1662,26 @@ Section RP.
       rwnr rec stack [] nr q st = (Val (inl r), st') -> chain_res q r.
     Proof.
       intros Hq1 Hq2 Hrec Hv. pose proof (filter_chain_ok _ _ _ _ Hv) as Hch.
-      unfold resolve_with_nameserver_response. destruct nr as [rrs soa|rrs cname|rrs d].
+      destruct (rwnr_cut rec stack [] nr q) as (nr' & Hs & _ & ->).
+      destruct Hs as [_|i r0 Hnd Hn Ho Hp].
+      2: { (* cut: the prefix is the chain from the question name to the owner of the first record cut *)
+        assert (Hcf : chain_from (q_name q) (firstn i (nr_rrs nr)) = Some (rr_name r0)).
+        { destruct nr as [rrs [s0|]|rrs c|rrs d]; cbn [nr_rrs] in *.
+          - subst rrs. destruct i; discriminate.
+          - destruct Hch as (cn & fin & last & -> & _ & Hvc). destruct Hvc as (H1 & _ & H3 & _).
+            eapply cut_chain; try eassumption. eapply Forall_impl; [|exact H3]. cbn beta. tauto.
+          - destruct Hch as [_ (H1 & _)].
+            pose proof (cut_chain zs q (q_name q) rrs [] c i r0 H1 (Forall_nil _)) as Hcc.
+            rewrite app_nil_r in Hcc. apply Hcc; assumption.
+          - exfalso. eapply Hnd. reflexivity. }
+        unfold resolve_with_response_match. unfold RecursiveModel.rbind at 1 2. unfold insert_all at 1.
+        destruct (resolve_combined_recursive _ _ _ _ _ _) as [[r1|w] st1] eqn:E; [|discriminate].
+        unfold ret. intro H. inversion H; subst. rewrite merge_nil_l in E.
+        eapply rcr_chain; [| | |exact E].
+        + intros st2 r2 st3 E2. eapply Hrec; [|exact E2]. reflexivity.
+        + cbn [mkq q_name]. exact Hcf.
+        + reflexivity. }
+      unfold resolve_with_response_match. destruct nr as [rrs soa|rrs cname|rrs d].
       - unfold RecursiveModel.rbind, insert_all, ret. intro H. inversion H; subst. cbn [chain_res resolved_rrs].
         rewrite merge_nil_l. destruct soa as [s|].
         + subst rrs. apply chain_shape_nil.
@@ -1738,9 +1794,17 @@ Section RP.
   Proof. destruct x as [[[r|e]|[| |]] st1]; reflexivity. Qed.
 
   Theorem recursive_only_validated_cached (P : cache -> Prop) :
-    (forall c q resp mc nr, P c -> validate_nameserver_response q resp mc = Ok (Some nr) -> P (cache_insert_all c (nr_rrs nr))) ->
+    (forall c q resp mc nr i, P c -> validate_nameserver_response q resp mc = Ok (Some nr) ->
+                              P (cache_insert_all c (firstn i (nr_rrs nr)))) ->
     forall f q st, P (fst st) -> P (fst (snd (rr_top f q st))).
   Proof. intros HP f q st H. unfold resolve_recursive. rewrite finish_snd. apply rrn_only_validated_cached; assumption. Qed.
+
+  Theorem recursive_cached_cut (P : cache -> Prop) :
+    (forall c q resp mc nr i, P c -> validate_nameserver_response q resp mc = Ok (Some nr) ->
+        ((exists x y, nr = NRDelegation x y) \/ forall r, In r (firstn i (nr_rrs nr)) -> owned_elsewhere zs q r = false) ->
+        P (cache_insert_all c (firstn i (nr_rrs nr)))) ->
+    forall f q st, P (fst st) -> P (fst (snd (rr_top f q st))).
+  Proof. intros HP f q st H. unfold resolve_recursive. rewrite finish_snd. apply rrn_cached_cut; assumption. Qed.
 
   Theorem recursive_port_fixed f q st :
     exists new, ts_rlog (snd (snd (rr_top f q st))) = new ++ ts_rlog (snd st)
